@@ -22,6 +22,7 @@ def atomic_publish(ctx):
     """default writer: mkstemp(dir=dirname(outputpath)) -> os.write -> os.close -> move(tmp, outputpath); outputpath is written by nothing else"""
     db = ctx.db
     fn = db.func("template._compile_module_file")
+    OUT = fn.args.args[3].arg
     g = cfgmod.function_cfg(fn)
     mk = calls(fn, "tempfile.mkstemp", "tempfile.NamedTemporaryFile", "mkstemp")
     if not mk:
@@ -30,7 +31,7 @@ def atomic_publish(ctx):
     m0 = mk[0]
     kw = {k.arg: k.value for k in m0.keywords}
     d = kw.get("dir")
-    ctx.check(d is not None and src(d).replace("os.path.", "").replace("posixpath.", "") == "dirname(outputpath)", "tmp.same-dir", db.where(m0),
+    ctx.check(d is not None and src(d).replace("os.path.", "").replace("posixpath.", "") == "dirname(%s)" % OUT, "tmp.same-dir", db.where(m0),
               "temporary file is created in %s, not in the directory of the destination: the final move is then not an atomic rename" % (src(d) if d is not None else "the default temp dir"), "dir=dirname(outputpath)")
     wr = calls(fn, "os.write") + [c for c in calls(fn, suffix="write") if dotted(c.func) != "os.write"]
     cl = calls(fn, "os.close") + [c for c in calls(fn, suffix="close") if dotted(c.func) != "os.close"]
@@ -47,7 +48,7 @@ def atomic_publish(ctx):
     w0, c0, v0 = wr[0], cl[0], mv[0]
     ctx.check(src(w0.args[0]) == fdname and len(w0.args) == 2, "write.target", db.where(w0), "os.write targets %s, not the temp descriptor" % src(w0.args[0]), "writes the temp descriptor")
     ctx.check(src(c0.args[0]) == fdname if c0.args else False, "close.target", db.where(c0), "close() is not applied to the temp descriptor", "closes the temp descriptor")
-    ctx.check(len(v0.args) == 2 and src(v0.args[0]) == tmpname and src(v0.args[1]) == "outputpath", "move.args", db.where(v0),
+    ctx.check(len(v0.args) == 2 and src(v0.args[0]) == tmpname and src(v0.args[1]) == OUT, "move.args", db.where(v0),
               "final step is %s, not move(<temp name>, outputpath)" % src(v0), "move(%s, outputpath)" % tmpname)
     # ordering on every path: mkstemp dom write dom close dom move
     seq = [("mkstemp", m0), ("write", w0), ("close", c0), ("move", v0)]
@@ -56,11 +57,11 @@ def atomic_publish(ctx):
         ctx.check(ok, "order:%s<%s" % (an, bn), db.where(b), "%s is not preceded by %s on every path: the module can be published before it is completely written and closed" % (bn, an), "%s dominates %s" % (an, bn))
     # the whole source is written by one os.write call... os.write may write partially: accept (trusted: regular files)
     # outputpath used nowhere else
-    uses = [n for n in walk_func(fn) if isinstance(n, ast.Name) and n.id == "outputpath" and isinstance(n.ctx, ast.Load)]
+    uses = [n for n in walk_func(fn) if isinstance(n, ast.Name) and n.id == OUT and isinstance(n.ctx, ast.Load)]
     for u in uses:
         c = next((a for a in ancestors(u) if isinstance(a, ast.Call)), None)
         nm = dotted(c.func) if c is not None else None
-        ok = nm in MOVES and c.args and c.args[-1] is u or (nm or "").endswith("dirname") or nm == "module_writer"
+        ok = nm in MOVES and c.args and c.args[-1] is u or (nm or "").endswith("dirname") or nm == fn.args.args[4].arg
         ctx.check(bool(ok), "outputpath-use:%s" % nm, db.where(u), "outputpath is passed to %s: something other than the final move touches the destination" % nm, "used by %s" % nm)
     opens = [c for c in calls(fn, "open", "io.open", "os.open", "os.fdopen")]
     ctx.check(not opens, "no-direct-open", db.where(fn), "direct open() in _compile_module_file: %s" % [src(o) for o in opens], "no direct open()")
